@@ -232,7 +232,7 @@ class VLock:
             if self._owner is None:
                 self._owner, self._count = me, 1
                 return True
-            if self.reentrant and self._owner is me:
+            if self.reentrant and self._owner == me:
                 self._count += 1
                 return True
             if not blocking:
@@ -245,7 +245,7 @@ class VLock:
 
     def release(self):
         me = self._me()
-        if self._owner is None or (self.reentrant and self._owner is not me):
+        if self._owner is None or (self.reentrant and self._owner != me):
             raise RuntimeError('release unlocked lock' if self._owner is None else 'cannot release un-acquired lock')
         self._count -= 1
         if self._count == 0:
